@@ -29,6 +29,7 @@ type Route struct {
 	Ordered bool
 	Local   bool
 	Xfer    bool // ICS-20 transfer application (real stack) instead of a scripted mock
+	OneWay  bool // packets flow only from end 0 to end 1 (end 0's application is not scripted)
 	// per direction d (0: end0 -> end1, 1: end1 -> end0)
 	Chain  [2]*sim.Chain
 	Port   [2]string // v1 port of end i
@@ -164,6 +165,8 @@ type CoreOptions struct {
 	Delay      uint64
 	WLocalVerify int
 	WDelayProbe  int
+	WReReg       int // replay of the v2 counterparty registration
+	WSkew        int // extra weight of per-chain clock skew changes
 	// token worlds
 	Tokens    bool
 	Chains    int      // number of chains (default 2)
@@ -254,6 +257,12 @@ func (p *Core) Setup(w *sim.World) {
 			p.Routes = append(p.Routes, &Route{Kind: "v1u", Chain: [2]*sim.Chain{a, b}, Port: [2]string{ca.Port, cb.Port}, ID: [2]string{ca.ChanID, cb.ChanID},
 				Client: [2]string{ea.ClientID, eb.ClientID}, Conn: [2]string{ea.ConnID, eb.ConnID}})
 		}
+	}
+	if p.wantKind("v1x") {
+		// an UNORDERED channel whose two ends sit on DIFFERENT ports (as ICA channels do)
+		ca, cb := sim.OpenChannel(ea, eb, ibcmock.MockBlockUpgrade, ibcmock.PortID, ibcmock.Version, channeltypes.UNORDERED)
+		p.Routes = append(p.Routes, &Route{Kind: "v1x", OneWay: true, Chain: [2]*sim.Chain{a, b}, Port: [2]string{ca.Port, cb.Port}, ID: [2]string{ca.ChanID, cb.ChanID},
+			Client: [2]string{ea.ClientID, eb.ClientID}, Conn: [2]string{ea.ConnID, eb.ConnID}})
 	}
 	if p.wantKind("v1o") {
 		ca, cb := sim.OpenChannel(ea, eb, ibcmock.PortID, ibcmock.PortID, ibcmock.Version, channeltypes.ORDERED)
@@ -370,11 +379,17 @@ func (p *Core) install(c *sim.Chain) {
 			return nil
 		case "panic":
 			panic("scripted application panic")
+		case "sfail":
+			// the application (or a middleware of its stack) writes an acknowledgement for this very
+			// packet itself and then fails: everything it wrote, including that ack, must be discarded
+			// and the error acknowledgement written by core
+			_ = c.App.IBCKeeper.ChannelKeeper.WriteAcknowledgement(ctx, pk, channeltypes.NewResultAcknowledgement([]byte("self-written")))
+			return channeltypes.NewErrorAcknowledgement(fmt.Errorf("scripted failure after writing an ack"))
 		default:
 			return channeltypes.NewErrorAcknowledgement(fmt.Errorf("scripted failure"))
 		}
 	}
-	app.OnAcknowledgementPacket = func(ctx sdk.Context, _ string, pk channeltypes.Packet, ack []byte, _ sdk.AccAddress) error {
+	app.OnAcknowledgementPacket =func(ctx sdk.Context, _ string, pk channeltypes.Packet, ack []byte, _ sdk.AccAddress) error {
 		_, tag, idx, _ := parseData(pk.Data)
 		p.taps = append(p.taps, Tap{Chain: ci, Kind: "ack", Tag: tag, PIdx: idx, ID: pk.SourcePort + "/" + pk.SourceChannel, Seq: pk.Sequence,
 			TxHash: txHashOf(ctx), Final: ctx.ExecMode() == sdk.ExecModeFinalize, Data: pk.Data, Ack: append([]byte{}, ack...), P1: pk})
